@@ -273,6 +273,7 @@ func resolveComputedFields(env *Environment, errorSink *validation.ErrorSink) *E
 			case *Vector:
 				if len(t.Arguments) != 1 {
 					errorSink.Add(validationError(t, "vector index must have exactly one argument"))
+					return t
 				}
 				if d.Length != nil {
 					switch arg := t.Arguments[0].Value.(type) {
@@ -285,6 +286,7 @@ func resolveComputedFields(env *Environment, errorSink *validation.ErrorSink) *E
 			case *Map:
 				if len(t.Arguments) != 1 {
 					errorSink.Add(validationError(t, "map lookup must have exactly one argument"))
+					return t
 				}
 
 				argType := t.Arguments[0].Value.GetResolvedType()
@@ -328,7 +330,7 @@ func resolveComputedFields(env *Environment, errorSink *validation.ErrorSink) *E
 						for argIndex, arg := range t.Arguments {
 							found := false
 							for dimIndex, dim := range *d.Dimensions {
-								if *dim.Name == arg.Label {
+								if dim.Name != nil && *dim.Name == arg.Label {
 									found = true
 									if orderedArguments[dimIndex] != nil {
 										errorSink.Add(validationError(arg.Value, "array index has multiple arguments for dimension '%s'", *dim.Name))
@@ -338,7 +340,11 @@ func resolveComputedFields(env *Environment, errorSink *validation.ErrorSink) *E
 									if dimIndex != argIndex {
 										expectedOrder := make([]string, len(*d.Dimensions))
 										for i, dim := range *d.Dimensions {
-											expectedOrder[i] = *dim.Name
+											if dim.Name != nil {
+												expectedOrder[i] = *dim.Name
+											} else {
+												expectedOrder[i] = strconv.Itoa(i)
+											}
 										}
 										errorSink.Add(validationError(arg.Value, "array index has arguments must be specified in order: %s", strings.Join(expectedOrder, ", ")))
 										return t
